@@ -43,8 +43,8 @@ def sig_model_check(chk, tier):
 
 
 def sig_generate(chk, tier):
-    num = 160 if tier == "quick" else 4000
-    depth = 12 if tier == "quick" else 18
+    num = 160 if tier == "quick" else 10000
+    depth = 12 if tier == "quick" else 20
     cfg = os.path.join(chk.work, "SignalGen_%s.cfg" % tier)
     with open(cfg, "w") as f:
         f.write('CONSTANTS\n  Sigs = {"HUP", "INT", "SEGV", "TERM", "CHLD"}\n  Hids = {1, 2}\n  Threads = {0, 1}\n  MaxRaise = 0\n'
